@@ -449,6 +449,23 @@ func runC18(p *core.Prog, r *core.Report) {
 		})
 		r.Check(ok, "C18-R3", fmt.Sprintf("CopyFile: error of copy step #%d is returned", i), p.Pos(cc.Pos()), "every return after the copy carries the copy's error result", "a return after "+sx.CalleeName(cc)+" does not carry its error: a failed copy would be reported as success")
 	}
+	// success means copied: every return that can carry a nil error lies behind the copy step (no "already up to date"
+	// shortcut: equal size and time stamp do not make equal bytes, and MoveFile deletes the source on nil)
+	if len(copyCalls) > 0 {
+		cutC := sx.Cut{Instrs: map[ssa.Instruction]bool{}}
+		for _, cc := range copyCalls {
+			cutC.Instrs[cc] = true
+		}
+		var early []string
+		for _, ret := range sx.Returns(cp) {
+			for _, rc := range retCases(ret, len(ret.Results)-1) {
+				if sx.IsNilConst(rc.Val) && !sx.MustPass(cp, nil, rc.At, cutC) {
+					early = append(early, p.Pos(ret.Pos()))
+				}
+			}
+		}
+		r.Check(len(early) == 0, "C18-R3", "CopyFile: a nil error is returned only after the copy step", p.FuncPos(cp), "every nil-error return is behind the copy", "CopyFile can return a nil error without having copied (return at "+strings.Join(uniq(early), ", ")+"): the destination keeps whatever it held, and MoveFile's fallback goes on to delete the source")
+	}
 	// a refused alias is an error: MoveFile removes the source when CopyFile returns nil
 	{
 		okRefuse, nSF := true, 0
